@@ -234,6 +234,16 @@ func (m *membership) universalIDByPartyID(id PartyID) UniversalID {
 	return m.pID2UID[id]
 }
 
+// sessionNodesByPartyID maps every party of a session to the node that represents it in that session.
+// Several nodes may represent the same party, so the reverse of the whole membership map is not enough.
+func (m *membership) sessionNodesByPartyID(participants []UniversalID) map[PartyID]UniversalID {
+	res := make(map[PartyID]UniversalID)
+	for _, uID := range participants {
+		res[m.partyIDByUniversalID(uID)] = uID
+	}
+	return res
+}
+
 func computeMembership(mapping map[UniversalID]PartyID) *membership {
 	protocol2universal := make(map[PartyID]UniversalID)
 	universal2Protocol := make(map[UniversalID]PartyID)
@@ -628,6 +638,7 @@ func (s *Scheme) prepareSigning(membership *membership, parties []PartyID, topic
 
 func (s *Scheme) initializeDKG(dkg KeyGenerator, threshold int, members []UniversalID, parties []PartyID, membership *membership) error {
 	membersWithoutMe := excludeUniversal(members, s.SelfID)
+	nodeOfParty := membership.sessionNodesByPartyID(members)
 
 	dkgTopicHash := hash([]byte(DkgTopicName))
 
@@ -639,7 +650,12 @@ func (s *Scheme) initializeDKG(dkg KeyGenerator, threshold int, members []Univer
 			s.Send(uint8(MsgTypeMPC), dkgTopicHash, payload, membersWithoutMe...)
 			return
 		}
-		s.Send(uint8(MsgTypeMPC), dkgTopicHash, payload, membership.universalIDByPartyID(PartyID(to)))
+		destination, isParticipant := nodeOfParty[PartyID(to)]
+		if !isParticipant {
+			s.Logger.Warnf("Not sending a message addressed to party %d, which does not take part in this session", to)
+			return
+		}
+		s.Send(uint8(MsgTypeMPC), dkgTopicHash, payload, destination)
 	})
 
 	return nil
@@ -653,6 +669,7 @@ func (s *Scheme) initializeThresholdSigning(membership *membership, parties []Pa
 	}
 
 	membersWithoutMe := excludeUniversal(signers, s.SelfID)
+	nodeOfParty := membership.sessionNodesByPartyID(signers)
 
 	signer.Init(partyIDsToUInts(parties), s.Threshold, func(msg []byte, isBroadcast bool, to uint16) {
 		var payload []byte
@@ -662,7 +679,12 @@ func (s *Scheme) initializeThresholdSigning(membership *membership, parties []Pa
 			s.Send(uint8(MsgTypeMPC), topicHash, payload, membersWithoutMe...)
 			return
 		}
-		s.Send(uint8(MsgTypeMPC), topicHash, payload, membership.universalIDByPartyID(PartyID(to)))
+		destination, isParticipant := nodeOfParty[PartyID(to)]
+		if !isParticipant {
+			s.Logger.Warnf("Not sending a message addressed to party %d, which does not take part in this session", to)
+			return
+		}
+		s.Send(uint8(MsgTypeMPC), topicHash, payload, destination)
 	})
 
 	return signer, nil
